@@ -10,6 +10,8 @@ import (
 	"errors"
 	"log/slog"
 
+	"github.com/goblimey/go-crc24q/crc24q"
+
 	"github.com/goblimey/go-ntrip/jsonconfig"
 	rtcm "github.com/goblimey/go-ntrip/rtcm/handler"
 	"github.com/goblimey/go-ntrip/rtcm/utils"
@@ -74,7 +76,13 @@ func VerifC10_WriterLoop() {
 			}
 			typed++
 		}
-		ch <- rtcm.Message{MessageType: t, RawData: raw}
+		// a typed message may carry an error text (an MSM frame whose
+		// timestamp is out of range is still a valid frame)
+		em := ""
+		if isRTCM && verifParam(string(rune('e'+i)), 0, 1) == 1 {
+			em = "timestamp out of range"
+		}
+		ch <- rtcm.Message{MessageType: t, RawData: raw, ErrorMessage: em}
 	}
 	close(ch)
 	verifWitness("reached")
@@ -101,7 +109,19 @@ func c10Sequential(in []byte) []rtcm.Message {
 // c10Input: frames, junk and a corrupted frame with symbolic contents.
 func c10Input() []byte {
 	var in []byte
-	switch verifParam("shape", 0, 3) {
+	switch verifParam("shape", 0, 4) {
+	case 4:
+		// a CRC-valid MSM7 frame whose timestamp is out of range (all ones)
+		// between two other frames: reported with an error, still a valid frame
+		in = append(in, c11Frame("a", 2)...)
+		p := verifBytes("m", 10)
+		p[0], p[1], p[2] = 0x43, 0x50, 0x00 // type 1077, station 0
+		p[3], p[4], p[5] = 0xff, 0xff, 0xff // timestamp bits all ones ...
+		p[6] = 0xfc | p[6]&0x03             // ... 30 of them
+		f := append([]byte{0xd3, 0x00, 10}, p...)
+		crc := crc24q.Hash(f)
+		in = append(in, append(f, byte(crc>>16), byte(crc>>8), byte(crc))...)
+		in = append(in, c11Frame("c", 2)...)
 	case 0:
 		in = append(in, c11Frame("a", 3)...)
 	case 1:
